@@ -37,6 +37,36 @@ var cfgOpsMulti = []cfgOp{
 	{Name: "SetMany{K:c}", Kind: "setmany", Many: map[string][]string{"K": {"c"}}},
 	{Name: "SetMany{K:a,L:c}", Kind: "setmany", Many: map[string][]string{"K": {"a"}, "L": {"c"}}},
 	{Name: "Del(K)", Kind: "del", K: "K"},
+	// the *WithStruct spelling: every exported field replaces the values of its key (slices: one value per element)
+	{Name: "Struct{K:c,L:[a,b]}", Kind: "struct", Many: map[string][]string{"K": {"c"}, "L": {"a", "b"}}},
+	{Name: "Struct{K:'',L:[]}", Kind: "struct", Many: map[string][]string{"K": {""}, "L": {}}},
+}
+
+// struct spellings of the two struct ops above (tags of every container that has a *WithStruct setter)
+type spellMulti struct {
+	K string   `param:"k" form:"k"`
+	L []string `param:"l" form:"l"`
+}
+
+type spellSingle struct {
+	K string `cookie:"k" path:"k"`
+	L string `cookie:"l" path:"l"`
+}
+
+func multiStruct(op cfgOp) any {
+	v := spellMulti{K: op.Many["K"][0], L: append([]string(nil), op.Many["L"]...)}
+	if len(op.Many["L"]) == 0 {
+		return &v // the pointer form is accepted too
+	}
+	return v
+}
+
+func singleStruct(op cfgOp) any {
+	v := spellSingle{K: op.Many["K"][0], L: op.Many["L"][0]}
+	if v.L == "" {
+		return &v
+	}
+	return v
 }
 
 var cfgOpsSingle = []cfgOp{
@@ -47,17 +77,21 @@ var cfgOpsSingle = []cfgOp{
 	{Name: "SetMany{K:a,L:c}", Kind: "setmany", Many: map[string][]string{"K": {"a"}, "L": {"c"}}},
 	{Name: "Del(K)", Kind: "del", K: "K"},
 	{Name: "Del(K,L)", Kind: "del", K: "K,L"},
+	{Name: "Struct{K:c,L:a}", Kind: "struct", Many: map[string][]string{"K": {"c"}, "L": {"a"}}},
+	{Name: "Struct{K:b,L:''}", Kind: "struct", Many: map[string][]string{"K": {"b"}, "L": {""}}},
+	{Name: "Reset()", Kind: "reset"},
 }
 
 // a container: how one op is applied, whether the op kind exists for it, and how the wire is read back
 type cfgContainer struct {
-	Name   string
-	Multi  bool
-	Key    func(k string) string // spelling of the abstract key K / L in this container
-	HasDel bool
-	Apply  func(cl *client.Client, rq *client.Request, op cfgOp, key func(string) string)
-	Read   func(s seen, key string) []string
-	URL    string
+	Name                string
+	Multi               bool
+	Key                 func(k string) string // spelling of the abstract key K / L in this container
+	HasDel              bool
+	HasStruct, HasReset bool
+	Apply               func(cl *client.Client, rq *client.Request, op cfgOp, key func(string) string)
+	Read                func(s seen, key string) []string
+	URL                 string
 }
 
 func one(m map[string][]string, key func(string) string) map[string]string {
@@ -114,7 +148,7 @@ func cfgContainers() []cfgContainer {
 					cl.SetHeaders(one(op.Many, key))
 				}
 			}, Read: func(s seen, key string) []string { return s.Headers[key] }},
-		{Name: "request-param", Multi: true, Key: low, HasDel: true, URL: "http://srv.test/p",
+		{Name: "request-param", Multi: true, Key: low, HasDel: true, HasStruct: true, URL: "http://srv.test/p",
 			Apply: func(_ *client.Client, rq *client.Request, op cfgOp, key func(string) string) {
 				switch op.Kind {
 				case "add":
@@ -127,9 +161,11 @@ func cfgContainers() []cfgContainer {
 					rq.SetParams(one(op.Many, key))
 				case "del":
 					rq.DelParams(keys(op.K, key)...)
+				case "struct":
+					rq.SetParamsWithStruct(multiStruct(op))
 				}
 			}, Read: func(s seen, key string) []string { return s.Query[key] }},
-		{Name: "client-param", Multi: true, Key: low, HasDel: true, URL: "http://srv.test/p",
+		{Name: "client-param", Multi: true, Key: low, HasDel: true, HasStruct: true, URL: "http://srv.test/p",
 			Apply: func(cl *client.Client, _ *client.Request, op cfgOp, key func(string) string) {
 				switch op.Kind {
 				case "add":
@@ -142,9 +178,11 @@ func cfgContainers() []cfgContainer {
 					cl.SetParams(one(op.Many, key))
 				case "del":
 					cl.DelParams(keys(op.K, key)...)
+				case "struct":
+					cl.SetParamsWithStruct(multiStruct(op))
 				}
 			}, Read: func(s seen, key string) []string { return s.Query[key] }},
-		{Name: "request-form", Multi: true, Key: low, HasDel: true, URL: "http://srv.test/p",
+		{Name: "request-form", Multi: true, Key: low, HasDel: true, HasStruct: true, URL: "http://srv.test/p",
 			Apply: func(_ *client.Client, rq *client.Request, op cfgOp, key func(string) string) {
 				switch op.Kind {
 				case "add":
@@ -157,9 +195,11 @@ func cfgContainers() []cfgContainer {
 					rq.SetFormDataWithMap(one(op.Many, key))
 				case "del":
 					rq.DelFormData(keys(op.K, key)...)
+				case "struct":
+					rq.SetFormDataWithStruct(multiStruct(op))
 				}
 			}, Read: func(s seen, key string) []string { return s.Form[key] }},
-		{Name: "request-cookie", Key: low, HasDel: true, URL: "http://srv.test/p",
+		{Name: "request-cookie", Key: low, HasDel: true, HasStruct: true, URL: "http://srv.test/p",
 			Apply: func(_ *client.Client, rq *client.Request, op cfgOp, key func(string) string) {
 				switch op.Kind {
 				case "set":
@@ -168,6 +208,8 @@ func cfgContainers() []cfgContainer {
 					rq.SetCookies(one(op.Many, key))
 				case "del":
 					rq.DelCookies(keys(op.K, key)...)
+				case "struct":
+					rq.SetCookiesWithStruct(singleStruct(op))
 				}
 			}, Read: func(s seen, key string) []string {
 				if v, ok := s.Cookies[key]; ok {
@@ -175,7 +217,7 @@ func cfgContainers() []cfgContainer {
 				}
 				return nil
 			}},
-		{Name: "client-cookie", Key: low, HasDel: true, URL: "http://srv.test/p",
+		{Name: "client-cookie", Key: low, HasDel: true, HasStruct: true, URL: "http://srv.test/p",
 			Apply: func(cl *client.Client, _ *client.Request, op cfgOp, key func(string) string) {
 				switch op.Kind {
 				case "set":
@@ -184,6 +226,8 @@ func cfgContainers() []cfgContainer {
 					cl.SetCookies(one(op.Many, key))
 				case "del":
 					cl.DelCookies(keys(op.K, key)...)
+				case "struct":
+					cl.SetCookiesWithStruct(singleStruct(op))
 				}
 			}, Read: func(s seen, key string) []string {
 				if v, ok := s.Cookies[key]; ok {
@@ -191,7 +235,51 @@ func cfgContainers() []cfgContainer {
 				}
 				return nil
 			}},
+		{Name: "request-path-param", Key: low, HasDel: true, HasStruct: true, HasReset: true, URL: "http://srv.test/p/:k/:l/end",
+			Apply: func(_ *client.Client, rq *client.Request, op cfgOp, key func(string) string) {
+				switch op.Kind {
+				case "set":
+					rq.SetPathParam(key(op.K), op.V)
+				case "setmany":
+					rq.SetPathParams(one(op.Many, key))
+				case "del":
+					rq.DelPathParams(keys(op.K, key)...)
+				case "struct":
+					rq.SetPathParamsWithStruct(singleStruct(op))
+				case "reset":
+					rq.ResetPathParams()
+				}
+			}, Read: readPathParam},
+		{Name: "client-path-param", Key: low, HasDel: true, HasStruct: true, URL: "http://srv.test/p/:k/:l/end",
+			Apply: func(cl *client.Client, _ *client.Request, op cfgOp, key func(string) string) {
+				switch op.Kind {
+				case "set":
+					cl.SetPathParam(key(op.K), op.V)
+				case "setmany":
+					cl.SetPathParams(one(op.Many, key))
+				case "del":
+					cl.DelPathParams(keys(op.K, key)...)
+				case "struct":
+					cl.SetPathParamsWithStruct(singleStruct(op))
+				}
+			}, Read: readPathParam},
 	}
+}
+
+// readPathParam reads the value substituted for :k / :l in /p/:k/:l/end (nil: the placeholder is still there)
+func readPathParam(s seen, key string) []string {
+	segs := strings.Split(s.Path, "/")
+	if len(segs) != 5 || segs[1] != "p" || segs[4] != "end" {
+		return []string{"<path shape changed: " + s.Path + ">"}
+	}
+	v := segs[2]
+	if key == "l" {
+		v = segs[3]
+	}
+	if v == ":"+key {
+		return nil
+	}
+	return []string{v}
 }
 
 // reference: ordered multimap
@@ -215,6 +303,15 @@ func cfgModel(ops []cfgOp, multi bool) map[string][]string {
 			for _, k := range strings.Split(op.K, ",") {
 				delete(m, k)
 			}
+		case "struct":
+			for k, vs := range op.Many {
+				delete(m, k)
+				if len(vs) > 0 {
+					m[k] = append([]string{}, vs...)
+				}
+			}
+		case "reset":
+			m = map[string][]string{}
 		}
 	}
 	return m
@@ -246,8 +343,10 @@ func lastTouch(ops []cfgOp, k string) string {
 		switch op.Kind {
 		case "add", "set":
 			touches = op.K == k
-		case "addmany", "setmany":
+		case "addmany", "setmany", "struct":
 			_, touches = op.Many[k]
+		case "reset":
+			touches = true
 		case "del":
 			for _, x := range strings.Split(op.K, ",") {
 				touches = touches || x == k
@@ -273,7 +372,7 @@ func runCfgSequences(r *core.Run, depth int) {
 		}
 		var usable []cfgOp
 		for _, op := range alpha {
-			if op.Kind == "del" && !ct.HasDel {
+			if op.Kind == "del" && !ct.HasDel || op.Kind == "struct" && !ct.HasStruct || op.Kind == "reset" && !ct.HasReset {
 				continue
 			}
 			usable = append(usable, op)
